@@ -161,6 +161,26 @@ func genWeights(r *hx.Rng, n int, style int) []int {
 		case 2:
 			big := []int{1 << 62, -(1 << 62), 1<<63 - 1, -1 << 63, 0, -1, 1, 123456789012345678}
 			v[k] = big[r.Intn(len(big))]
+		case 4:
+			// digit-count boundaries: 10^e + d and its negative, d in -2..2, next to short numbers
+			if r.Intn(3) == 0 {
+				v[k] = r.Range(0, 99)
+			} else {
+				p := 1
+				for e := r.Intn(19); e > 0; e-- {
+					p *= 10
+				}
+				v[k] = p + r.Range(-2, 2)
+				if r.Intn(2) == 0 {
+					v[k] = -v[k]
+				}
+			}
+		case 5:
+			// powers of two and neighbours (binary boundaries)
+			v[k] = (1 << uint(r.Intn(63))) + r.Range(-1, 1)
+			if r.Intn(2) == 0 {
+				v[k] = -v[k]
+			}
 		default:
 			v[k] = k + 1
 		}
@@ -186,9 +206,16 @@ func gen(g *hx.Gen) {
 	}
 	maxN := g.Pick(9, 14)
 	for n := 0; n <= maxN; n++ {
-		for style := 0; style < 4; style++ {
+		for style := 0; style < 6; style++ {
 			vals := genWeights(g.Rng, n, style)
 			emit(n, "none", "e", vals)
+			if style > 3 {
+				// value-boundary styles: the complete output is what matters; several draws
+				for rep := 0; rep < g.Pick(6, 40); rep++ {
+					emit(n, "none", "e", genWeights(g.Rng, n, style))
+				}
+				continue
+			}
 			if style > 1 && n > 5 {
 				continue
 			}
@@ -211,7 +238,7 @@ func gen(g *hx.Gen) {
 	kinds := []string{"e", "s", "c", "E", "S", "C"}
 	for i := 0; i < g.Pick(300, 3000); i++ {
 		n := g.Rng.Range(0, 24)
-		vals := genWeights(g.Rng, n, g.Rng.Intn(4))
+		vals := genWeights(g.Rng, n, g.Rng.Intn(6))
 		emit(n, "none", "e", vals)
 		emit(n, "f"+strconv.Itoa(g.Rng.Intn(4000)), kinds[g.Rng.Intn(len(kinds))], vals)
 	}
